@@ -584,7 +584,7 @@ def bss_eval_images_framewise(
     validate(reference_sources, estimated_sources)
     # If empty matrices were supplied, return empty lists (special case)
     if reference_sources.size == 0 or estimated_sources.size == 0:
-        return np.array([]), np.array([]), np.array([]), np.array([])
+        return np.array([]), np.array([]), np.array([]), np.array([]), np.array([])
 
     nsrc = reference_sources.shape[0]
 
@@ -615,7 +615,7 @@ def bss_eval_images_framewise(
             )
         else:
             # if we have a silent frame set results as np.nan
-            sdr[:, k] = sir[:, k] = sar[:, k] = perm[:, k] = np.nan
+            sdr[:, k] = isr[:, k] = sir[:, k] = sar[:, k] = perm[:, k] = np.nan
 
     return sdr, isr, sir, sar, perm
 
